@@ -94,3 +94,27 @@ def cc_fold(ctx, results, jobs):
         j, r, v = rej[0]
         ctx.correspondence_broken("L5c model of connection_check(): a real run is not a run of the model, or returns something else",
                                   {"count": len(rej), "first": {"spec": j[0], "seed": r["seed"], "preempt": r["preempt"], "verdict": v}})
+
+
+def run_systematic(ctx, specs, mons, depth, label="", max_runs=20000):
+    """exhaustive exploration of every schedule within `depth` deviations from the canonical one, per small scenario"""
+    total = 0
+    for spec in specs:
+        results, stats = b2.systematic(spec, mons, depth=depth, max_runs=max_runs)
+        total += stats["runs"]
+        ctx.count("systematic_runs", stats["runs"])
+        ctx.count(f"systematic_depth:{depth}")
+        if stats["truncated"]:
+            ctx.count("systematic_truncated")
+        for r in results:
+            ctx.case((json.dumps(spec, sort_keys=True), "sys", tuple(r["prefix"])))
+            if r["status"] != "all-finished":
+                ctx.count(f"status:{r['status']}")
+            for v in r["violations"]:
+                ctx.violation(f"[{v['monitor']}/{v['kind']}] systematic schedule {r['prefix']}: {v['what']}",
+                              {"path": "b2", "spec": dict(spec, _mode="first"), "seed": 0, "preempt": 0, "choices": r.get("choice_list") or r["prefix"], "monitor": v["monitor"], "kind": v["kind"]},
+                              {"kind": v["kind"], "monitor": v["monitor"]})
+    b2.close_pool()
+    ctx.cov["systematic_schedules"] = ctx.cov.get("systematic_schedules", 0) + total
+    ctx.cov["exhaustive_within_bound"] = f"all schedules within {depth} deviation(s) from the canonical schedule of {len(specs)} small scenario(s) ({label})"
+    return total
